@@ -318,12 +318,13 @@ def finish(run, level, coverage, assumptions):
     return 1 if nviol else 0
 
 
-def shards_by_group(start):
-    """split a trace into shards at events of type `start` (which open a logical trace)"""
+def shards_by_group(start, pred=None):
+    """split a trace into shards at events of type `start` (which open a logical trace);
+    pred(ev) may further restrict which of them open one"""
     def split(events, n):
         groups, cur = [], []
         for ev in events:
-            if ev["e"] == start and cur:
+            if ev["e"] == start and cur and (pred is None or pred(ev)):
                 groups.append(cur)
                 cur = []
             cur.append(ev)
